@@ -51,6 +51,19 @@ def _bootstrap():
         os.environ.setdefault(k, "1")
 
 
+def _strict(o):
+    """Evidence must be strictly valid JSON: non-finite floats are written as strings."""
+    import math
+
+    if isinstance(o, float) and not math.isfinite(o):
+        return "NaN" if o != o else ("Infinity" if o > 0 else "-Infinity")
+    if isinstance(o, dict):
+        return {str(k): _strict(v) for k, v in o.items()}
+    if isinstance(o, (list, tuple)):
+        return [_strict(v) for v in o]
+    return o
+
+
 def load_property(pid: str):
     mod = importlib.import_module(f"vlib.props.{pid.lower()}")
     return mod.PROPERTY
@@ -335,7 +348,7 @@ def run_check(pid: str, tier: str, seed: int, only, scale: float) -> int:
     # runs against a scratch copy (mutants, seeded changes) or of a single sub-check never overwrite the evidence of /repo
     evdir = ROOT / "evidence" if (os.environ.get("VERIF_REPO", "/repo") == "/repo" and not only) else ROOT / "evidence" / "scratch"
     evdir.mkdir(parents=True, exist_ok=True)
-    (evdir / f"{pid}.json").write_text(json.dumps(ev, indent=1, default=core._json_default))
+    (evdir / f"{pid}.json").write_text(json.dumps(_strict(core.to_jsonable(ev)), indent=1, allow_nan=False))
 
     # ---- report
     for e in known:
